@@ -147,6 +147,10 @@ def run(ctx):
     ctx.notes["translator_validation"] = dict(compared=ncmp, mismatches=len(mism), **extra)
     for m in mism[:5]:
         ctx.mismatch("generated %s.%s" % (m.get("case", {}).get("cls"), m.get("case", {}).get("method")), m["what"])
+    sd_bad = D.scipydist_correspondence(ctx, ctx.n(150, 1500), parts=("params",))
+    ctx.notes["scipydist_correspondence"] = {"mismatches": len(sd_bad)}
+    for b in sd_bad[:5]:
+        ctx.mismatch("ScipyDistribution hand model", b["what"] + " (case %r)" % {k: v for k, v in b.items() if k not in ("what",)})
     rng = ctx.rng
     n = ctx.n(400, 6000)
     dist = {}
